@@ -73,7 +73,12 @@ impl ArrayBinaryBits for Array<u8> {
                     .collect::<Self>();
                 let count = count.unwrap_or(self.len()?.to_isize() * 8);
                 if count >= 0 { result.slice(0..count.to_usize()) }
-                else { result.slice(0..self.len()? - count.to_usize()) }
+                else {
+                    let bits = result.len()?;
+                    let trim = count.unsigned_abs();
+                    if trim > bits { return Err(ArrayError::OutOfBounds { value: "count" }) }
+                    result.slice(0..bits - trim)
+                }
             },
             Some(axis) => {
                 let axis = self.normalize_axis(axis);
